@@ -195,6 +195,10 @@ func (e *env) restart() {
 		unfinished[i] = sj.Present && !(sj.Completed || sj.Canceled)
 	}
 	// the tasks that were executing died with the old process
+	for j := range w.st.Stop {
+		// stops delivered by the old process do not belong to a shutdown of the new runner
+		w.st.Stop[j].DuringShut = false
+	}
 	for j := range w.st.Runs {
 		for t := range w.st.Runs[j] {
 			if r := &w.st.Runs[j][t]; r.Open {
